@@ -28,13 +28,13 @@ type c19Act struct {
 const c19Prelude = `class U {}
 class W {}
 class X {}
-class Box<T> { public T $v; public function id(T $x) { return 1; } }
-class Pair<K, V> { public K $k; public V $v; public function setv(V $x) { return 1; } }
+class Box<T> { public T $v; public function id(T $x) { return 1; } public function relay_id($x) { return $this->id($x); } }
+class Pair<K, V> { public K $k; public V $v; public function setv(V $x) { return 1; } public function relay_setv($x) { return $this->setv($x); } }
 class RepoBase {
   public $count = 0;
   public function touch() { return 1; }
 }
-class Repo<T> extends RepoBase { public T $last; public function save(T $x) { return 1; } }
+class Repo<T> extends RepoBase { public T $last; public function save(T $x) { return 1; } public function relay_save($x) { return $this->save($x); } }
 function put_last($o, $x) { $o->last = $x; }
 function call_save($o, $x) { return $o->save($x); }
 function put_v($o, $x) { $o->v = $x; }
@@ -69,7 +69,9 @@ func c19Script(acts []c19Act, spawned bool) string {
 		case "new":
 			fmt.Fprintf(&sb, "$i%d = new %s<%s>();\n", a.I, a.Cls, strings.Join(a.Args, ", "))
 		case "write":
-			if a.Via == "helper" {
+			if a.Via == "this-call" {
+				fmt.Fprintf(&sb, "try { $i%d->relay_%s(%s); echo \"ok;\"; } catch (\\Throwable $e) { echo \"rej;\"; }\n", a.I, a.Member, c19Value(a.Kind))
+			} else if a.Via == "helper" {
 				h := "put_"
 				if a.Member == "id" || a.Member == "setv" || a.Member == "save" {
 					h = "call_"
@@ -94,7 +96,7 @@ func C19(c *Ctx) *kf.Report {
 	}
 	maxOps := c.Pick(3, 4)
 	res := runTLC(rep, tlc.Run{SpecDir: c.SpecDir(), Module: "Generic", Cfg: "Generic.cfg",
-		Consts: map[string]string{"MAXINST": "3", "MAXOPS": fmt.Sprint(maxOps)}})
+		Consts: map[string]string{"MAXINST": "3", "MAXOPS": fmt.Sprint(maxOps), "VIAS": map[bool]string{false: `{"direct", "helper", "this-call"}`, true: `{"direct", "helper"}`}[c.Thorough()]}})
 	if res == nil {
 		return rep
 	}
@@ -138,6 +140,8 @@ func C19(c *Ctx) *kf.Report {
 				w := "w"
 				if a.Via == "helper" {
 					w = "h"
+				} else if a.Via == "this-call" {
+					w = "t"
 				}
 				ids = append(ids, fmt.Sprintf("%s%d.%s.%s", w, a.I, a.Member, a.Kind))
 			}
@@ -183,10 +187,19 @@ func C19(c *Ctx) *kf.Report {
 		}
 	}
 	g.AllPaths(maxOps, func(_ string, p []graph.Edge) bool { runPath(p); return true })
+	if c.Thorough() {
+		// the depth-4 graph leaves the this-call route out (cost); it is explored completely at depth 3
+		if r3 := runTLC(rep, tlc.Run{SpecDir: c.SpecDir(), Module: "Generic", Cfg: "Generic.cfg",
+			Consts: map[string]string{"MAXINST": "3", "MAXOPS": "3", "VIAS": `{"direct", "helper", "this-call"}`}}); r3 != nil && r3.Violated == "" {
+			if g3, err := graph.Build(r3.Tagged["INIT"], r3.Tagged["EDGE"]); err == nil {
+				g3.AllPaths(3, func(_ string, p []graph.Edge) bool { runPath(p); return true })
+			}
+		}
+	}
 	exhaustive := paths
 	// seeded longer sequences (length <= 6) from TLC -simulate
 	sim := runTLC(rep, tlc.Run{SpecDir: c.SpecDir(), Module: "Generic", Cfg: "Generic.cfg", Workers: 1,
-		Consts: map[string]string{"MAXINST": "4", "MAXOPS": "6"}, Simulate: fmt.Sprintf("num=%d", c.Pick(100, 1500)), Depth: 8, Seed: c.Seed})
+		Consts: map[string]string{"MAXINST": "4", "MAXOPS": "6", "VIAS": `{"direct", "helper", "this-call"}`}, Simulate: fmt.Sprintf("num=%d", c.Pick(100, 1500)), Depth: 8, Seed: c.Seed})
 	if sim != nil {
 		sg, err := graph.Build(sim.Tagged["INIT"], sim.Tagged["EDGE"])
 		if err == nil {
